@@ -283,17 +283,20 @@ func (m *monC01) Finish(rc *RunCtx) {
 // =====================================================================================
 
 type monC06 struct {
-	wgStart  [21]float64
-	begZeit  int
-	fin      *finiteScanner
-	nfk      [21]float64
-	haveNFK  bool
-	lowSeen  bool
-	highSeen bool
-	nanSeen  bool
-	psInput  [21]float64
-	havePS   bool
-	kRng     *Rng
+	wgStart   [21]float64
+	begZeit   int
+	fin       *finiteScanner
+	nfk       [21]float64
+	haveNFK   bool
+	lowSeen   bool
+	highSeen  bool
+	nanSeen   bool
+	psInput   [21]float64
+	havePS    bool
+	kRng      *Rng
+	lastGRW   float64
+	gwSeen    bool
+	gwChanges int
 }
 
 func (m *monC06) Event(ev *hermes.VerifEvent, rc *RunCtx) {
@@ -310,6 +313,10 @@ func (m *monC06) Event(ev *hermes.VerifEvent, rc *RunCtx) {
 		} else {
 			m.wgStart = g.WG[1]
 		}
+		if m.gwSeen && g.GRW != m.lastGRW {
+			m.gwChanges++
+		}
+		m.lastGRW, m.gwSeen = g.GRW, true
 	case "post_evatra":
 		m.nfk = ev.W.NFK
 		m.haveNFK = true
@@ -376,6 +383,18 @@ func (m *monC06) Event(ev *hermes.VerifEvent, rc *RunCtx) {
 				}
 				rc.Violate("C06", sig, fmt.Sprintf("layer %d water content %.17g above field capacity %.17g + capillary increment %.17g", z+1, w, g.W[z], hi-g.W[z]), ev.Zeit, z+1,
 					map[string]float64{"wg": w, "w": g.W[z], "porges": g.PORGES[z], "grw": g.GRW, "caplayer": float64(capLayer + 1)})
+			}
+			// the field capacity of a reference run that re-evaluates the soil parameters from scratch every day (see
+			// monForceFresh): independent of whatever the run under observation keeps from earlier groundwater levels
+			if fr := rc.Sc.freshRef[ev.Zeit]; fr != nil && m.gwChanges > 0 {
+				hiRef := fr.p.W[z]
+				if z == capLayer {
+					hiRef += capInc
+				}
+				if w > hiRef+eps {
+					rc.Violate("C06", "above_field_capacity_of_forced_reevaluation", fmt.Sprintf("layer %d water content %.17g (start of day %.17g) lies above the field capacity %.17g (+ capillary increment %.6g) that a run re-evaluating the soil parameters every day uses for this day (groundwater at %.4g dm; field capacity in use %.6g)", z+1, w, m.wgStart[z], fr.p.W[z], hiRef-fr.p.W[z], g.GRW, g.W[z]), ev.Zeit, z+1, nil)
+				}
+				rc.Cov("layerdays_checked_against_forced_reevaluation", 1)
 			}
 			if w <= lo+1e-9 {
 				m.lowSeen = true
